@@ -29,7 +29,7 @@ Definition is_reg (mode : Z) : bool := ftype mode =? c_S_IFREG.
 Definition sender_has_rdev (o : fopts) (mode : Z) : bool :=
   (o_devices o && is_dev mode) || (o_specials o && is_special mode).
 Definition receiver_has_rdev (o : fopts) (mode : Z) : bool :=
-  o_devices o && (is_dev mode || is_special mode).
+  (o_devices o && is_dev mode) || (o_specials o && is_special mode).
 
 Definition has_flag (flags f : Z) : bool := negb (Z.land flags f =? 0).
 
